@@ -696,3 +696,38 @@ Proof.
   - cbn [clone_chain snd] in Hl. specialize (C2 l Hl). lia.
   - assert (Hn : s_next (fst (clone_agent i s a)) <= l) by (apply (IH (fst (clone_agent i s a)) (snd (clone_agent i s a)) l); [discriminate|exact Hl]). lia.
 Qed.
+
+(* size of the population a tournament returns: one copy per draw, one more with elitism, plus the elite object *)
+Lemma clone_into_length i idx w : (i < length (w_pop w))%nat ->
+  length (w_pop (clone_into clone_agent i idx w)) = S (length (w_pop w)).
+Proof.
+  intros H. unfold clone_into. destruct (nth_error (w_pop w) i) as [a|] eqn:E.
+  - destruct (clone_agent idx (w_store w) a) as [s' c]. cbn [w_pop]. rewrite app_length. cbn. lia.
+  - apply nth_error_None in E. lia.
+Qed.
+
+Lemma clone_winners_length : forall ws id old w,
+  Forall (fun i => (i < length (w_pop w))%nat) ws ->
+  length (w_pop (clone_winners ws id old w)) = (length (w_pop w) + length ws)%nat.
+Proof.
+  induction ws as [|i r IH]; intros id old w H; cbn [clone_winners length]; [lia|].
+  inversion H as [|? ? Hi Hr]; subst. rewrite IH.
+  - rewrite clone_into_length by auto. lia.
+  - rewrite clone_into_length by auto. eapply Forall_impl; [|exact Hr]. cbn beta. intros; lia.
+Qed.
+
+Theorem select_length_lemma e ws el w :
+  (e < length (w_pop w))%nat -> Forall (fun i => (i < length (w_pop w))%nat) ws ->
+  length (w_pop (select e ws el w)) = (length ws + (if el then 1 else 0) + 1)%nat.
+Proof.
+  intros He Hws. unfold select. cbn [w_pop]. set (n := length (w_pop w)) in *.
+  set (w1 := clone_into clone_agent e None w).
+  assert (L1 : length (w_pop w1) = S n) by (apply clone_into_length; auto).
+  set (w2 := if el then clone_into clone_agent n None w1 else w1).
+  assert (L2 : length (w_pop w2) = (S n + (if el then 1 else 0))%nat).
+  { unfold w2. destruct el; [rewrite clone_into_length; lia|lia]. }
+  assert (L3 : length (w_pop (clone_winners ws (max_index (w_pop w)) n w2)) = (length (w_pop w2) + length ws)%nat).
+  { apply clone_winners_length. eapply Forall_impl; [|exact Hws]. cbn beta. intros; lia. }
+  set (p3 := w_pop (clone_winners ws (max_index (w_pop w)) n w2)) in *.
+  rewrite app_length, skipn_length, firstn_length, skipn_length. destruct el; lia.
+Qed.
